@@ -227,6 +227,34 @@ def apply_model(sym, n, f, vals, mut_idx, st):
     if p == "std::cmp::Ordering::is_eq":
         return V(("eq", vals[0], ("adt", "Ordering", "Equal", ())))
 
+    # ---- ranges: (a..=b).contains(&x) / (a..b).contains(&x) are the two comparisons ------------------------------------
+    if last == "contains" and len(vals) == 2 and re.match(r"^std::ops::Range(Inclusive)?(::<[^>]*>)?::contains$", p):
+        r_, x = vals
+        lo = hi = None
+        incl = "RangeInclusive" in p
+        if r_[0] == "call" and r_[1].endswith("::new") and "RangeInclusive" in r_[1] and len(r_[2]) == 2:
+            lo, hi = r_[2]
+        elif r_[0] == "adt" and r_[1] in ("Range", "RangeInclusive"):
+            d_ = dict(r_[3])
+            lo, hi = d_.get("start"), d_.get("end")
+        if lo is not None and hi is not None:
+            out = []
+            for s, below in sym.fork_bool(st, ("lt", x, lo)):
+                if below:
+                    out.append((s, (VAL, FALSE)))
+                    continue
+                atom = ("lt", hi, x) if incl else ("not", ("lt", x, hi))
+                for s2, above in sym.fork_bool(s, atom):
+                    out.append((s2, (VAL, FALSE if above else TRUE)))
+            return out
+
+    # ---- slice.first(): None when empty, Some(&x[0]) otherwise -------------------------------------------------------
+    if p == "core::slice::first" and len(vals) == 1 and not mut_idx:
+        out = []
+        for s, emp in sym.fork_bool(st, ("empty", vals[0])):
+            out.append((s, (VAL, NONE if emp else some(("index", vals[0], lit_int(0))))))
+        return out
+
     # ---- strings / slices ------------------------------------------------------------------------------------------
     if last == "is_empty" and len(vals) == 1 and not mut_idx:
         return V(("empty", vals[0]))
